@@ -52,17 +52,17 @@ macro_rules! pkt_any {
     };
 }
 
-//@ h name=pkt_connack_any props=C04 tier=quick cap=small to=1500 pb=pkt_connack_any_s
-//@ h name=pkt_publish_any props=C04 tier=quick cap=small to=1500 pb=pkt_publish_any_s
-//@ h name=pkt_puback_any props=C04 tier=quick cap=small to=1500 pb=pkt_puback_any_s
-//@ h name=pkt_pubrec_any props=C04 tier=thorough cap=small to=1500 pb=pkt_pubrec_any_s
-//@ h name=pkt_pubrel_any props=C04 tier=thorough cap=small to=1500 pb=pkt_pubrel_any_s
-//@ h name=pkt_pubcomp_any props=C04 tier=thorough cap=small to=1500 pb=pkt_pubcomp_any_s
-//@ h name=pkt_suback_any props=C04 tier=quick cap=small to=1500 pb=pkt_suback_any_s
-//@ h name=pkt_unsuback_any props=C04 tier=thorough cap=small to=1500 pb=pkt_unsuback_any_s
+//@ h name=pkt_connack_any props=C04 tier=quick cap=small to=1500
+//@ h name=pkt_publish_any props=C04 tier=quick cap=small to=1500
+//@ h name=pkt_puback_any props=C04 tier=quick cap=small to=1500
+//@ h name=pkt_pubrec_any props=C04 tier=thorough cap=small to=1500
+//@ h name=pkt_pubrel_any props=C04 tier=thorough cap=small to=1500
+//@ h name=pkt_pubcomp_any props=C04 tier=thorough cap=small to=1500
+//@ h name=pkt_suback_any props=C04 tier=quick cap=small to=1500
+//@ h name=pkt_unsuback_any props=C04 tier=thorough cap=small to=1500
 //@ h name=pkt_pingresp_any props=C04 tier=quick cap=small to=600
-//@ h name=pkt_disconnect_any props=C04 tier=quick cap=small to=1500 pb=pkt_disconnect_any_s
-//@ h name=pkt_auth_any props=C04 tier=quick cap=small to=1500 pb=pkt_auth_any_s
+//@ h name=pkt_disconnect_any props=C04 tier=quick cap=small to=1500
+//@ h name=pkt_auth_any props=C04 tier=quick cap=small to=1500
 //@ claim: <T>Rx::try_decode on an arbitrary buffer (header byte arbitrary too) never panics (assume-guarantee: Property::try_decode is replaced by its contract, which property_any establishes on the real function)
 //@ bounds: arbitrary buffers of 2..=12 bytes (publish, suback, unsuback 10; pingresp 4); property loop <= 6 iterations (unwinding assertion); properties returned by the contract stub carry strings/binaries of 0..=2 bytes; buffers shorter than 2 bytes are never produced by the framing layer (asserted in the L2 harnesses)
 //@ assume: Property::try_decode == its contract {no panic; Err or a well-formed property with 2 <= byte_len() <= input length}
@@ -79,6 +79,20 @@ pkt_any!(pkt_pingresp_any, PingrespRx, 4, 6);
 pkt_any!(pkt_disconnect_any, DisconnectRx, 12, 7);
 pkt_any!(pkt_auth_any, AuthRx, 12, 7);
 
+macro_rules! pkt_any_e {
+    ($name:ident, $t:ty, $n:expr, $unwind:expr) => {
+        #[kani::proof]
+        #[kani::unwind($unwind)]
+        #[kani::stub(core::str::from_utf8, crate::verif_h::sym::utf8_stub)]
+        #[kani::stub(<crate::core::properties::Property as crate::core::utils::TryDecode>::try_decode, crate::verif_h::sym::property_err)]
+        pub(crate) fn $name() {
+            let b = any_bytes::<$n>(2);
+            let r = <$t>::try_decode(b);
+            kani::cover!(r.is_err(), "Err reachable");
+            core::mem::forget(r);
+        }
+    };
+}
 //@ h name=pkt_connack_any_s props=C04 tier=off cap=small to=900
 //@ h name=pkt_publish_any_s props=C04 tier=off cap=small to=900
 //@ h name=pkt_puback_any_s props=C04 tier=off cap=small to=900
@@ -89,18 +103,18 @@ pkt_any!(pkt_auth_any, AuthRx, 12, 7);
 //@ h name=pkt_unsuback_any_s props=C04 tier=off cap=small to=900
 //@ h name=pkt_disconnect_any_s props=C04 tier=off cap=small to=900
 //@ h name=pkt_auth_any_s props=C04 tier=off cap=small to=900
-//@ claim: smaller siblings (buffers of 2..=8 bytes) of the pkt_<type>_any harnesses, used only to extract a concrete assignment when the full-size harness reports a failed check (trace generation on the full size exceeds memory)
+//@ claim: small siblings (buffers of 2..=8 bytes, Property::try_decode always failing) of the pkt_<type>_any harnesses, used only to extract a concrete assignment when the full-size harness reports a failed check (trace generation switches off formula slicing and exceeds memory on the full size); the native replay decides
 //@ bounds: arbitrary buffers of 2..=8 bytes
-pkt_any!(pkt_connack_any_s, ConnackRx, 8, 6);
-pkt_any!(pkt_publish_any_s, PublishRx, 8, 7);
-pkt_any!(pkt_puback_any_s, PubackRx, 8, 6);
-pkt_any!(pkt_pubrec_any_s, PubrecRx, 8, 6);
-pkt_any!(pkt_pubrel_any_s, PubrelRx, 8, 6);
-pkt_any!(pkt_pubcomp_any_s, PubcompRx, 8, 6);
-pkt_any!(pkt_suback_any_s, SubackRx, 8, 6);
-pkt_any!(pkt_unsuback_any_s, UnsubackRx, 8, 6);
-pkt_any!(pkt_disconnect_any_s, DisconnectRx, 8, 6);
-pkt_any!(pkt_auth_any_s, AuthRx, 8, 6);
+pkt_any_e!(pkt_connack_any_s, ConnackRx, 8, 6);
+pkt_any_e!(pkt_publish_any_s, PublishRx, 8, 7);
+pkt_any_e!(pkt_puback_any_s, PubackRx, 8, 6);
+pkt_any_e!(pkt_pubrec_any_s, PubrecRx, 8, 6);
+pkt_any_e!(pkt_pubrel_any_s, PubrelRx, 8, 6);
+pkt_any_e!(pkt_pubcomp_any_s, PubcompRx, 8, 6);
+pkt_any_e!(pkt_suback_any_s, SubackRx, 8, 6);
+pkt_any_e!(pkt_unsuback_any_s, UnsubackRx, 8, 6);
+pkt_any_e!(pkt_disconnect_any_s, DisconnectRx, 8, 6);
+pkt_any_e!(pkt_auth_any_s, AuthRx, 8, 6);
 
 //@ h name=pkt_dispatch_any props=C04 tier=quick cap=small to=1500
 //@ claim: RxPacket::try_decode (the type dispatch on the first byte) never panics, Ok yields the variant named by the header's type nibble, and types 0,1,8,10,12 are refused
